@@ -253,6 +253,10 @@ def _adversarial_calls():
     big2 = big1.copy()
     big2[1500] = -1
     yield "large arrays differing in the middle (keyword)", ((), {"a": big1, "b": big1}), ((), {"a": big2, "b": big2})
+    sq = np.arange(16, dtype=float).reshape(4, 4)
+    yield "a square array and its transposed view (same memory, other values)", ((sq, a32), {}), ((sq.T, a32), {})
+    yield "a C-ordered array and its Fortran-ordered copy of the transpose", ((sq, a32), {}), ((np.asfortranarray(sq.T), a32), {})
+    yield "an array and its reversed view", ((a32, a32), {}), ((a32[::-1], a32), {})
 
 
 def replay(unit_name, inp, obligation=""):
@@ -265,7 +269,7 @@ def replay(unit_name, inp, obligation=""):
         def f(a=None, b=None, n=0, flag=False):
             "doc"
             a = np.asarray(a)
-            return (a.dtype.str, a.shape, float(np.sum(a)), n, flag)
+            return (a.dtype.str, a.shape, float(np.sum(a)), n, flag, [float(v) for v in a.reshape(-1)[:3]])
         for what, (a1, k1), (a2, k2) in _adversarial_calls():
             try:
                 r1 = f(*a1, **k1)
